@@ -8,7 +8,7 @@
 int redirect_init(pipe_type *parent,
                   handle_type *child,
                   REPROC_STREAM stream,
-                  reproc_redirect redirect,
+                  reproc_redirect *redirect,
                   bool nonblocking,
                   handle_type out);
 
